@@ -268,6 +268,11 @@ def build_jobs(tier: str) -> list:
         if k % 4 == 1:
             gen.add_restated_sentinels(q, rng)
             tag += '+sentinel'
+        if k % 6 == 2:
+            # a unit requested for a column of the revenue table: the figures are converted and the column heading names that unit
+            for col in rng.sample(['Electricity Sale Price Model', 'Heat Sale Price Model', 'Cooling Sale Price Model'], 2):
+                q[f'Units:{col}'] = rng.choice(['USD/kWh', 'USD/MWh'])
+            tag += '+price-units'
         jobs.append((tag, gen.to_text(q)))
     for name, text in sim.example_inputs().items():
         if name.startswith(('Beckers', 'example6', 'example7', 'MC_')):
